@@ -759,7 +759,10 @@ def strat_model_isotherm():
     def one(model):
         return st.builds(
             lambda P, v, i, u, dens, mm, reps, how, direction, form, tunit: {
-                "model": model, "params": P, "v": v, "T": None, "zero": False,
+                # the ModelIsotherm constructor initialises DR/DA with the isotherm's kelvin temperature: the bare
+                # model of the oracle is initialised with the same temperature
+                "model": model, "params": P, "v": v,
+                "T": K.temperature_for(tab[i], u) if model in ("DR", "DA") else None, "zero": False,
                 "adsorbate": tab[i][0], "T_iso": K.temperature_for(tab[i], u), "density": dens, "molar_mass": mm,
                 "native": [list(reps[0]), list(reps[1]), list(reps[2])],
                 "requested": [list(reps[3]), list(reps[4]), list(reps[5])],
@@ -809,7 +812,7 @@ def check_model_isotherm(desc, ctx):
     if how[2] == "full":
         kwargs.update(material_basis=mr[0], material_unit=mr[1])
 
-    m = build(model, P, None)
+    m = build(model, P, desc.get("T"))
     material = K.build_material({"name": "m-c10", "density": desc["density"], "molar_mass": desc["molar_mass"]})
     t_in = T if desc["temperature_unit"] == "K" else T - 273.15
     iso = pygaps.ModelIsotherm(model=m, material=material, adsorbate=desc["adsorbate"], temperature=t_in,
